@@ -107,7 +107,7 @@ theorem jetOK_model (e : Env) (name : String) (a b : Ty) :
 /-! ### the typing rule of a node -/
 
 /-- node `nd` has the arrow `A → B` given the arrows `ar` of its children -/
-def NodeRule (ar : Arrows) (A B : Ty) : Node → Prop
+def NodeRule (jt : JetTypes) (ar : Arrows) (A B : Ty) : Node → Prop
   | .iden => A = B
   | .unit => B = .one
   | .injl c => ∃ Tc X, ar[c]? = some (A, Tc) ∧ B = .sum Tc X
@@ -126,15 +126,15 @@ def NodeRule (ar : Arrows) (A B : Ty) : Node → Prop
   | .witness => True
   | .fail _ => True
   | .word n bits => A = .one ∧ B = wordTy n ∧ bits.length = 2 ^ n
-  | .jet _ => True
-  | .hidden _ => False
+  | .jet name => jt name = some (A, B)
+  | .hidden _ => True
 
 theorem castT_self {a b : Ty} (t : Term a b) : castT (a' := a) (b' := b) t = some t := by
   simp [castT]
 
 /-- **one node**: if the children elaborate at their arrows to `WT` terms, so does the node -/
-theorem elabStep_total (e : Env) (f i : Nat) (nd : Node) (A B : Ty)
-    (hr : NodeRule e.arrows A B nd)
+theorem elabStep_total (jt : JetTypes) (e : Env) (f i : Nat) (nd : Node) (A B : Ty)
+    (hr : NodeRule jt e.arrows A B nd) (hnh : ∀ h, nd ≠ .hidden h)
     (IH : ∀ c ∈ nd.children, ∀ a b, e.arrows[c]? = some (a, b) →
       ∃ t : Term a b, subE e f c a b = some t ∧ WT t)
     (hw : nd = .witness → ∃ v, e.wit i = some (compact v) ∧ HasTy v B) :
@@ -207,11 +207,12 @@ theorem elabStep_total (e : Env) (f i : Nat) (nd : Node) (A B : Ty)
     obtain ⟨v, hv, hvt⟩ := valOfCompact_word n bits hl
     exact ⟨.word v, by simp [elabStep, hv, castT_self], hvt⟩
   | jet name => exact ⟨.jet (jetJF e name A B) (jetF e name A B), by simp [elabStep], jetOK_model e name A B⟩
-  | hidden hh => exact absurd hr (by simp [NodeRule])
+  | hidden hh => exact absurd rfl (hnh hh)
 
 /-- what elaboration needs of a typed program -/
-structure ElabHyp (e : Env) : Prop where
-  rules : ∀ i nd, e.plan[i]? = some nd → NodeRule e.arrows (srcOf e.arrows i) (tgtOf e.arrows i) nd
+structure ElabHyp (jt : JetTypes) (e : Env) : Prop where
+  rules : ∀ i nd, e.plan[i]? = some nd → NodeRule jt e.arrows (srcOf e.arrows i) (tgtOf e.arrows i) nd
+  nohidden : ∀ (i h : Nat), e.plan[i]? ≠ some (Node.hidden h)
   back : ∀ i (nd : Node), e.plan[i]? = some nd → ∀ c ∈ nd.children, c < i
   size : e.arrows.size = e.plan.size
   wit : ∀ i, e.plan[i]? = some .witness → ∃ v, e.wit i = some (compact v) ∧ HasTy v (tgtOf e.arrows i)
@@ -220,7 +221,7 @@ theorem arrows_get? (ar : Arrows) (i : Nat) (h : i < ar.size) : ar[i]? = some (s
   simp [srcOf, tgtOf, Array.getD, h]
 
 /-- **every node of a typed program elaborates, at exactly its arrow, to a `WT` term** -/
-theorem elab_total (e : Env) (H : ElabHyp e) : ∀ (f i : Nat), i < f → i < e.plan.size →
+theorem elab_total {jt : JetTypes} (e : Env) (H : ElabHyp jt e) : ∀ (f i : Nat), i < f → i < e.plan.size →
     ∃ t : Term (srcOf e.arrows i) (tgtOf e.arrows i),
       elabNode e f i = some ⟨srcOf e.arrows i, tgtOf e.arrows i, t⟩ ∧ WT t := by
   intro f
@@ -232,7 +233,7 @@ theorem elab_total (e : Env) (H : ElabHyp e) : ∀ (f i : Nat), i < f → i < e.
     have har := arrows_get? e.arrows i (by rw [H.size]; exact hi)
     rw [elabNode_succ, hnd, har]
     simp only [Option.bind_eq_bind, Option.bind_some]
-    refine elabStep_total e f i nd _ _ (H.rules i nd hnd) ?_ ?_
+    refine elabStep_total jt e f i nd _ _ (H.rules i nd hnd) (fun h e' => H.nohidden i h (e' ▸ hnd)) ?_ ?_
     · intro c hc a b hcab
       have hci := H.back i nd hnd c hc
       have hcs : c < e.plan.size := by omega
